@@ -123,7 +123,7 @@ def e2e_suite(ctx: Ctx, n: int) -> None:
                 spec = S.gen_spec(ctx.rng, max_feats=5, frameworks=(ctx.rng.choice(["pa", "pa", "pd"]),), allow_options=ctx.rng.random() < 0.3)
                 sess = S.prepare(spec, S.build_classes(spec))
             elif kind == "multi":
-                spec = S.gen_spec(ctx.rng, max_feats=4, frameworks=("pa", "pd"), allow_multi_fw=True, allow_options=False, single_parent=True)
+                spec = S.gen_chain_spec(ctx.rng)
                 sess = S.prepare(spec, S.build_classes(spec))
             else:
                 spec = S.gen_link_spec(ctx.rng, frameworks=("pa",), nsrc=2, jointypes=("inner", "left", "outer"))
@@ -142,6 +142,7 @@ def e2e_suite(ctx: Ctx, n: int) -> None:
                 if fault is not None:
                     S.FAULTS[idx_of[fault]] = "execute"
                 before = S.flight_keys()
+                flakes0 = S.FLAKES["hangs_retried"]
                 rr = S.run_session(sess, mode, stream=stream, timeout=60)
                 S.FAULTS.clear()
                 left = leftovers(base_threads, flight_pid)
@@ -154,12 +155,16 @@ def e2e_suite(ctx: Ctx, n: int) -> None:
                     ctx.violation("e2e", case, "run did not end", None, None)
                     continue
                 new = sorted(after - before)
+                if S.FLAKES["hangs_retried"] != flakes0:
+                    ctx.tag("leak_assertion_skipped_after_hang_retry", 1)  # the aborted attempt never reached its clean-up
+                    new = []
+                    S.kill_stray_children()
                 if new:
                     ctx.violation("e2e", case, f"{len(new)} dataset(s) uploaded by the run are still in the flight store after the call {'raised' if rr.error else 'returned'}", new, [])
                 if left["threads"] or left["processes"]:
                     ctx.violation("e2e", case, f"workers of the run are still alive after the call ended: {left}", left, {"threads": [], "processes": []})
                 # no dataset dropped while a step still needs it: a premature drop shows as a failed download in a run without injected fault
-                known_mp_tfs = mode == "mp" and any(s_["kind"] == "tfs" and s_["from"] != "PyArrowTable" for s_ in exp["steps"])  # F-C14-flight-transform-step: fails on its own
+                known_mp_tfs = mode == "mp" and (any(s_["kind"] == "tfs" and s_["from"] != "PyArrowTable" for s_ in exp["steps"]) or S.mp_unuploaded_tfs_source(exp))  # fails on its own: F-C14-flight-transform-step / F-C02-mp-unuploaded-source (never uploaded, not dropped early)
                 if fault is None and not known_mp_tfs and rr.error and ("not found" in rr.error or "empty apache flight" in rr.error):
                     ctx.violation("e2e", case, "a step failed to download a dataset that had already been dropped", rr.error[-300:], None)
     S.stop_flight_server()
